@@ -15,7 +15,7 @@ FUNCTIONS = [Buffer.move_hot_to_cold, Buffer.move_cold_to_hot, HotBuffer.transfe
              HotBuffer.observation_for_transfer, ColdBuffer.observation_for_transfer]
 META = {
     'bounds': {'C18.size': 'unbounded int >= 1, size <= K*min(hot_rate, cold_rate): K = 6 transfer steps (quick) / 16 (thorough); round trip K = 3',
-               'C18.rates': 'unbounded ints >= 1, either may be the slower', 'C18.capacities': 'unbounded ints', 'C18.other_resident_data': 'unbounded ints >= 0',
+               'C18.rates': 'unbounded ints >= 1, either may be the slower', 'C18.capacities': 'unbounded ints', 'C18.other_resident_data': 'unbounded ints >= 0 (as a number, or as an observation stored earlier in the source tier)',
                'C18.directions': ['hot->cold', 'cold->hot', 'round trip']},
     'outside_bounds': ['moves longer than the stated number of transfer steps', 'several observations in transfer at once (the code supports one)',
                        "'real-time' mode (non-positive rates)"],
@@ -33,6 +33,13 @@ def mk(size, rh, rc, hcap, ccap, ho, co, src):
     o.status = RunStatus.FINISHED
     hot.current_capacity = hcap - ho - (size if src == 'hot' else 0)
     cold.current_capacity = ccap - co - (size if src == 'cold' else 0)
+    older = ho if src == 'hot' else co
+    if PIN.get('older') and older >= 1:
+        # the other resident data of the source tier is an observation stored EARLIER (the move takes the newest one)
+        o0 = Observation('o0', 0, 1, 1, 'wf', older)
+        o0.total_data_size = older
+        o0.status = RunStatus.FINISHED
+        (hot if src == 'hot' else cold).observations['stored'].append(o0)
     (hot if src == 'hot' else cold).observations['stored'].append(o)
     return env, buf, hot, cold, o
 
@@ -83,7 +90,7 @@ def move(env, buf, hot, cold, o, size, rh, rc, direction):
     want_chunks = (size + rate - 1) // rate
     if chunks != want_chunks:
         return f'C18/{direction}/wrong-number-of-steps', None
-    if (o in src.observations['stored']) or dst.observations['stored'].count(o) != 1:
+    if (o in src.observations['stored']) or dst.observations['stored'].count(o) != 1 or any(x is not o for x in dst.observations['stored']):
         return f'C18/{direction}/not-stored-in-exactly-one-tier', None
     if hot.observations['transfer'] is not None or cold.observations['transfer'] is not None:
         return f'C18/{direction}/transfer-slot-left-set', None
@@ -169,4 +176,5 @@ def shards(tier, prop):
     T = 120 if tier == 'quick' else 900
     pin = {'kmax': 6} if tier == 'quick' else {'kmax': 16}
     return [{'fn': 'h2c', 'pin': pin, 'cond_timeout': T}, {'fn': 'c2h', 'pin': pin, 'cond_timeout': T}, {'fn': 'roundtrip', 'cond_timeout': T},
+            {'fn': 'h2c', 'pin': dict(pin, older=True, kmax=3), 'cond_timeout': T}, {'fn': 'c2h', 'pin': dict(pin, older=True, kmax=3), 'cond_timeout': T},
             {'fn': 'h2c', 'cond_timeout': 30, 'twin': True}, {'fn': 'c2h', 'cond_timeout': 30, 'twin': True}]
